@@ -1901,3 +1901,184 @@ Proof.
     destruct (Nat.ltb (length (w_cells header)) (length r)) eqn:E; [apply Nat.ltb_lt in E; lia|reflexivity]. }
   rewrite Hm, all_ok_map_ok. reflexivity.
 Qed.
+
+(* ------------------------------------------------------------------ arguments rendered per row *)
+
+Section ArgsMemoProofs.
+Variable R : Type.
+
+Lemma akey_eqb_eq a b : akey_eqb a b = true <-> a = b.
+Proof.
+  destruct a as [a1 a2], b as [b1 b2]. unfold akey_eqb. cbn [fst snd].
+  rewrite andb_true_iff, !Nat.eqb_eq. split.
+  - intros [H1 H2]; subst; reflexivity.
+  - intros H; inversion H; auto.
+Qed.
+
+Lemma akey_eqb_refl a : akey_eqb a a = true.
+Proof. apply akey_eqb_eq. reflexivity. Qed.
+
+Lemma akey_eqb_neq a b : a <> b -> akey_eqb a b = false.
+Proof.
+  intros H. destruct (akey_eqb a b) eqn:E; [|reflexivity]. apply akey_eqb_eq in E. contradiction.
+Qed.
+
+Lemma alookup_astore_same k v l : alookup R k (astore R k v l) = Some v.
+Proof.
+  induction l as [|[k1 w] l IH]; cbn [astore alookup].
+  - rewrite akey_eqb_refl. reflexivity.
+  - destruct (akey_eqb k1 k) eqn:E; cbn [alookup]; rewrite E; [reflexivity|exact IH].
+Qed.
+
+Lemma alookup_astore_other k k' v l : k' <> k -> alookup R k' (astore R k v l) = alookup R k' l.
+Proof.
+  intros Hne. induction l as [|[k1 w] l IH]; cbn [astore alookup].
+  - rewrite (akey_eqb_neq k k'); [reflexivity|congruence].
+  - destruct (akey_eqb k1 k) eqn:E; cbn [alookup].
+    + apply akey_eqb_eq in E. subst k1. rewrite (akey_eqb_neq k k'); [reflexivity|congruence].
+    + destruct (akey_eqb k1 k'); [reflexivity|exact IH].
+Qed.
+
+Lemma skipn_cons_nth_a : forall q (l : list R) x r,
+  skipn q l = x :: r -> nth_error l q = Some x /\ skipn (S q) l = r.
+Proof.
+  induction q as [|q IH]; intros [|a l] x r H; cbn [skipn nth_error] in *; try discriminate.
+  - inversion H; subst. split; reflexivity.
+  - apply IH in H. exact H.
+Qed.
+
+(* one draw of a repeating linear iterator that stands q records into its file *)
+Lemma linear_draw (it : iter R) orc (d : dsref R) q :
+  i_ds R it = d -> i_repeat R it = true -> d_mode R d = Linear -> d_data R d <> [] ->
+  i_rest R it = skipn q (d_data R d) -> (q <= length (d_data R d))%nat ->
+  exists x q',
+    field_draw R it orc = Ok (x, mkIter R d true (skipn q' (d_data R d)), orc) /\
+    nth_error (d_data R d) (q mod length (d_data R d)) = Some x /\
+    (q' <= length (d_data R d))%nat /\
+    (q' mod length (d_data R d) = S q mod length (d_data R d))%nat.
+Proof.
+  destruct it as [ds rp rest]. cbn [i_ds i_repeat i_rest]. intros -> -> Hm Hne -> Hq.
+  set (n := length (d_data R d)).
+  assert (Hn : n <> 0%nat) by (subst n; destruct (d_data R d); [congruence|cbn [length]; lia]).
+  unfold field_draw, iter_next. cbn [i_rest i_repeat i_ds].
+  destruct (skipn q (d_data R d)) as [|x r] eqn:E.
+  - assert (Hqn : q = n).
+    { pose proof (skipn_length q (d_data R d)) as HL. rewrite E in HL. cbn [length] in HL. subst n. lia. }
+    unfold start. rewrite Hm. cbn [bind].
+    destruct (d_data R d) as [|y r'] eqn:Ed; [congruence|].
+    exists y, 1%nat. cbn [skipn]. splits.
+    + reflexivity.
+    + rewrite Hqn, Nat.mod_same by exact Hn. reflexivity.
+    + subst n. cbn [length]. lia.
+    + rewrite Hqn. replace (S n) with (1 + 1 * n)%nat by lia. rewrite Nat.mod_add by exact Hn. reflexivity.
+  - apply skipn_cons_nth_a in E. destruct E as [Hx Hr].
+    assert (Hlt : (q < n)%nat) by (subst n; apply nth_error_Some; rewrite Hx; discriminate).
+    exists x, (S q). splits.
+    + rewrite Hr. reflexivity.
+    + rewrite Nat.mod_small by exact Hlt. exact Hx.
+    + lia.
+    + reflexivity.
+Qed.
+
+Variable dsof : akey -> dsref R.
+
+Definition akey_good (k : akey) : Prop :=
+  d_mode R (dsof k) = Linear /\ d_repeat R (dsof k) = true /\ d_data R (dsof k) <> [].
+
+(* the remembered iterator of key k after cnt k draws *)
+Definition args_inv (tbl : list (akey * iter R)) (cnt : akey -> nat) : Prop :=
+  forall k,
+    match alookup R k tbl with
+    | None => cnt k = 0%nat
+    | Some it =>
+      i_ds R it = dsof k /\ i_repeat R it = true /\
+      exists q, i_rest R it = skipn q (d_data R (dsof k)) /\ (q <= length (d_data R (dsof k)))%nat /\
+                (cnt k mod length (d_data R (dsof k)) = q mod length (d_data R (dsof k)))%nat
+    end.
+
+Lemma prior_cons k c l :
+  prior R k (c :: l) = ((if akey_eqb (c_key R c) k then 1 else 0) + prior R k l)%nat.
+Proof.
+  unfold prior. cbn [filter]. destruct (akey_eqb (c_key R c) k); reflexivity.
+Qed.
+
+Lemma mod_succ_congr a b n : n <> 0%nat -> (a mod n = b mod n -> S a mod n = S b mod n)%nat.
+Proof.
+  intros Hn H. replace (S a) with (a + 1)%nat by lia. replace (S b) with (b + 1)%nat by lia.
+  rewrite (Nat.add_mod a 1 n), (Nat.add_mod b 1 n) by exact Hn. rewrite H. reflexivity.
+Qed.
+
+Lemma args_run_inv : forall calls tbl cnt orc,
+  args_inv tbl cnt ->
+  (forall c, In c calls -> c_ds R c = dsof (c_key R c) /\ akey_good (c_key R c)) ->
+  exists xs, args_run R calls tbl orc = (xs, None) /\ length xs = length calls /\
+    forall i c, nth_error calls i = Some c ->
+      nth_error xs i = nth_error (d_data R (c_ds R c))
+                                 ((cnt (c_key R c) + prior R (c_key R c) (firstn i calls))
+                                  mod length (d_data R (c_ds R c))).
+Proof.
+  induction calls as [|c rest IH]; intros tbl cnt orc Hinv Hall.
+  - exists []. splits; [reflexivity|reflexivity|]. intros [|i] c H; discriminate.
+  - destruct (Hall c (or_introl eq_refl)) as [Hds [Hm [Hr Hne]]].
+    set (k := c_key R c) in *. set (d := dsof k) in *.
+    assert (Hn : length (d_data R d) <> 0%nat) by (destruct (d_data R d); [congruence|cbn [length]; lia]).
+    (* the iterator the call gets, q records into the file, with cnt k = q (mod n) *)
+    assert (Hget : exists it q,
+              (match alookup R k tbl with Some it => Ok (it, orc) | None => new_iter R (c_ds R c) orc end)
+              = Ok (it, orc) /\
+              i_ds R it = d /\ i_repeat R it = true /\ i_rest R it = skipn q (d_data R d) /\
+              (q <= length (d_data R d))%nat /\
+              (cnt k mod length (d_data R d) = q mod length (d_data R d))%nat).
+    { pose proof (Hinv k) as Hk. destruct (alookup R k tbl) as [it|].
+      - destruct Hk as [H1 [H2 [q [H3 [H4 H5]]]]]. exists it, q. splits; auto.
+      - exists (mkIter R d true (d_data R d)), 0%nat. cbn [i_ds i_repeat i_rest skipn].
+        split. { rewrite Hds. unfold new_iter, start. rewrite Hm. cbn [bind]. rewrite Hr. reflexivity. }
+        split. { reflexivity. } split. { reflexivity. } split. { reflexivity. } split. { lia. }
+        rewrite Hk. reflexivity. }
+    destruct Hget as [it [q [Hg [Hi1 [Hi2 [Hi3 [Hq Hc]]]]]]].
+    destruct (linear_draw it orc d q Hi1 Hi2 Hm Hne Hi3 Hq) as [x [q' [Hd [Hx [Hq' Hc']]]]].
+    set (cnt' := fun k' => if akey_eqb k' k then S (cnt k') else cnt k').
+    assert (Hinv' : args_inv (astore R k (mkIter R d true (skipn q' (d_data R d))) tbl) cnt').
+    { intros k'. destruct (akey_eqb k' k) eqn:E.
+      - apply akey_eqb_eq in E. subst k'. rewrite alookup_astore_same. cbn [i_ds i_repeat i_rest].
+        splits; auto. exists q'. splits; auto. unfold cnt'. rewrite akey_eqb_refl.
+        fold d. rewrite Hc'. apply mod_succ_congr; [exact Hn|exact Hc].
+      - assert (Hne' : k' <> k) by (intros ->; rewrite akey_eqb_refl in E; discriminate).
+        rewrite alookup_astore_other by exact Hne'. unfold cnt'. rewrite E. apply Hinv. }
+    destruct (IH _ cnt' orc Hinv' (fun c0 H => Hall c0 (or_intror H))) as [xs [Hrun [Hlen Hnth]]].
+    exists (x :: xs). splits.
+    + cbn [args_run]. fold k. rewrite Hg, Hd, Hrun. reflexivity.
+    + cbn [length]. rewrite Hlen. reflexivity.
+    + intros [|i] c0 H0; cbn [nth_error firstn] in *.
+      * inversion H0; subst c0. fold k. rewrite Hds. fold d. unfold prior. cbn [filter length].
+        rewrite Nat.add_0_r, Hc. exact (eq_sym Hx).
+      * rewrite (Hnth i c0 H0). rewrite prior_cons. unfold cnt'. fold k.
+        destruct (akey_eqb (c_key R c0) k) eqn:E.
+        -- apply akey_eqb_eq in E. rewrite E. rewrite akey_eqb_refl. f_equal. f_equal. lia.
+        -- assert (E2 : akey_eqb k (c_key R c0) = false).
+           { apply akey_eqb_neq. intros H1. rewrite H1, akey_eqb_refl in E. discriminate. }
+           rewrite E2. f_equal.
+Qed.
+
+End ArgsMemoProofs.
+
+(* Every row of a Dataset.iterate field whose arguments are rendered per row gets the next record
+   of the dataset ITS arguments name: the i-th evaluation of a run — whatever call sites and
+   argument tuples the evaluations before it had — receives record (j mod n) of its own dataset,
+   j = the number of earlier evaluations of the same call site with the same rendered arguments. *)
+Theorem args_key_mod_n (R : Type) (dsof : nat -> nat -> dsref R) (calls : list (acall R)) (orc : list Z) :
+  (forall c, In c calls ->
+     c_ds R c = dsof (c_site R c) (c_args R c) /\
+     d_mode R (c_ds R c) = Linear /\ d_repeat R (c_ds R c) = true /\ d_data R (c_ds R c) <> []) ->
+  exists xs, args_run R calls [] orc = (xs, None) /\ length xs = length calls /\
+    forall i c, nth_error calls i = Some c ->
+      nth_error xs i = nth_error (d_data R (c_ds R c))
+                                 (prior R (c_key R c) (firstn i calls) mod length (d_data R (c_ds R c))).
+Proof.
+  intros Hall.
+  destruct (args_run_inv R (fun k => dsof (fst k) (snd k)) calls [] (fun _ => 0%nat) orc) as [xs [H1 [H2 H3]]].
+  - intros k. cbn [alookup]. reflexivity.
+  - intros c Hin. destruct (Hall c Hin) as [Hd [Hm [Hr Hne]]]. unfold c_key, akey_good. cbn [fst snd].
+    rewrite <- Hd. auto.
+  - exists xs. splits; auto.
+Qed.
